@@ -7,6 +7,7 @@
 #                 (stderr: a progress line ended by CR resp. LF) -- candidates differ from the golden run in line terminators only
 #   mode bytes  : exit status 1 in any case; prints the byte ff iff every given token occurs, else the four characters \\xff
 #                 (candidates differ from the golden run in an undecodable byte only)
+#   mode sup    : exit status 0 in any case; prints sat iff every given token occurs, else unsat (which CONTAINS the golden text sat)
 #   mode sync   : as all, and additionally the literal tokens (numerals, decimals, #b/#x, strings) must be at least two and all equal
 #                 (occurrences that have to be kept in sync: only a step that changes all of them at once is accepted)
 # Logs "<digest> <verdict>" to $VERIF_CMDLOG.  Optional delay: $VERIF_CMD_DELAY (ms, scaled by the digest).
@@ -31,6 +32,10 @@ if [ -n "$VERIF_CMD_DELAY" ]; then
   sleep "$(printf '0.%03d' "$ms")"
 fi
 [ -n "$VERIF_CMDLOG" ] && printf '%s %s\n' "$digest" "$ok" >> "$VERIF_CMDLOG"
+if [ "$mode" = sup ]; then
+  if [ "$ok" = 1 ]; then echo sat; else echo unsat; echo 'warning: x' >&2; fi
+  exit 0
+fi
 if [ "$mode" = bytes ]; then
   if [ "$ok" = 1 ]; then printf '\377 bug\n'; else printf '\\xff bug\n'; fi
   exit 1
